@@ -80,7 +80,7 @@ def run(F, R, tier):
                 ok = len(vals) == 1 and ctor_of(vals[0]) == "std::result::Result::Ok"
                 if ok:
                     inner = peel(vals[0]["args"][0])
-                    ok = callee_matches(inner, ["TransformItemResult::from_retain"]) and callee_matches(peel(inner["args"][0]), ["ModulePublicRanges::contains"]) and peel_value(peel(inner["args"][0])["args"][0]).get("lid") == pr_lid
+                    ok = callee_matches(inner, ["TransformItemResult::from_retain"]) and any(callee_matches(peel(y), ["ModulePublicRanges::contains"]) and peel_value(peel(y)["args"][0]).get("lid") == pr_lid for y in through_locals(inner["args"][0]))
                 writes = [n for n in walk(arm["body"]) if n["k"] in ("Assign", "AssignOp")]
                 R.ob("C11-c", "%s is retained exactly when its range is public, untouched" % sorted(names)[0], ok and not writes, "arm is `%s`" % expr_text(arm["body"])[:80], where(arm["body"]))
             if names & {"Class", "Fn"}:
